@@ -22,14 +22,16 @@ VERIF = os.path.dirname(os.path.dirname(os.path.abspath(__file__)))
 SEEDED = os.path.join(VERIF, "seeded")
 REFACTORS = os.path.join(VERIF, "selftest", "refactors")
 
-# seeds that are out of static reach by design (value-level; DESIGN §10) -- not demanded to fire
-EXPECTED_MISS = {"C03-2": "Stream refill size is integer arithmetic over runtime values",
-                 "C08-3": "nested_delimiters: composed grammar over token-value sets"}
+# seeds that are out of static reach by design (value-level; DESIGN §10) -- not demanded to fire.  Empty since the refill-amount
+# clause of STREAM and the GRAMMAR rule were added (both former misses, C03-2 and C08-3, are reported now).
+EXPECTED_MISS = {}
 
 # which refactor patches touch which properties' rules
 REFACTOR_PROPS = {
     "R01": ["C01", "C05"], "R02": ["C02"], "R03": ["C01"], "R04": ["C05", "C18"], "R05": ["C03"],
     "R06": ["C12"], "R07": ["C14"], "R08": ["C09"], "R09": ["C06"], "R10": ["C02"],
+    "R11": ["C01", "C06"], "R12": ["C05", "C18"], "R13": ["C03"], "R14": ["C03", "C10"], "R15": ["C14", "C10"],
+    "R16": ["C16", "C05"], "R17": ["C09"],
 }
 
 
@@ -70,9 +72,27 @@ def _run_patch(pid, patch):
         shutil.rmtree(tmp, ignore_errors=True)
 
 
+def _map(jobs):
+    import concurrent.futures as cf
+    with cf.ThreadPoolExecutor(int(os.environ.get("VERIF_SELFTEST_WORKERS", "4"))) as ex:
+        return list(ex.map(lambda j: _run_patch(*j), jobs))
+
+
 def rule_selftest(pid):
     r = RuleResult("SELFTEST")
     fired, silent, skipped = [], [], []
+    seed_jobs, ref_jobs = [], []
+    if os.path.isdir(SEEDED):
+        for name in sorted(os.listdir(SEEDED)):
+            d = os.path.join(SEEDED, name)
+            if os.path.isdir(d) and name.startswith(pid + "-") and name not in EXPECTED_MISS:
+                seed_jobs.append((name, (pid, os.path.join(d, "patch.diff"))))
+    if os.path.isdir(REFACTORS):
+        for fn in sorted(os.listdir(REFACTORS)):
+            key = fn.split("-")[0]
+            if fn.endswith(".diff") and (pid in REFACTOR_PROPS.get(key, []) or key not in REFACTOR_PROPS):
+                ref_jobs.append((fn, (pid, os.path.join(REFACTORS, fn))))
+    results = dict(zip([n for n, _ in seed_jobs + ref_jobs], _map([j for _, j in seed_jobs + ref_jobs])))
     # ---- fire
     if os.path.isdir(SEEDED):
         for name in sorted(os.listdir(SEEDED)):
@@ -82,7 +102,7 @@ def rule_selftest(pid):
             if name in EXPECTED_MISS:
                 skipped.append("%s (declined: %s)" % (name, EXPECTED_MISS[name]))
                 continue
-            res = _run_patch(pid, os.path.join(d, "patch.diff"))
+            res = results[name]
             if res[0] == "skip":
                 skipped.append("%s (%s)" % (name, res[1]))
                 continue
@@ -96,9 +116,9 @@ def rule_selftest(pid):
     if os.path.isdir(REFACTORS):
         for fn in sorted(os.listdir(REFACTORS)):
             key = fn.split("-")[0]
-            if not fn.endswith(".diff") or pid not in REFACTOR_PROPS.get(key, []):
+            if fn not in results:
                 continue
-            res = _run_patch(pid, os.path.join(REFACTORS, fn))
+            res = results[fn]
             if res[0] == "skip":
                 skipped.append("%s (%s)" % (fn, res[1]))
                 continue
